@@ -46,7 +46,7 @@ var c03Undecided = []TV{{K: "nil*Item"}, {K: "nilslice"}, {K: "nilmap"}}
 // verdicts about chain structure.
 var c03UniformOnly = []TV{{K: "string", S: "false"}, {K: "string", S: "true"}, {K: "string", S: "FALSE"}}
 
-var c03Placements = []string{"top", "nested", "for", "template", "ws", "comment", "adjacent", "beforefor", "table"}
+var c03Placements = []string{"top", "nested", "for", "template", "ws", "comment", "adjacent", "beforefor", "table", "component", "slot", "layout"}
 
 type c03 struct{}
 
@@ -63,7 +63,7 @@ func init() {
 
 func (p *c03) ID() string { return "C03" }
 func (p *c03) Rule() string {
-	return "chain part: every shape v-if + k x v-else-if (k<=2 quick, k<=3 thorough) with/without v-else x every truth assignment x 9 placements (top, nested, inside v-for with per-item conditions, on <template>, whitespace/comment between members, two adjacent chains, chain directly before a v-for sibling, inside table rows) x condition form (bare, negated) x a rotation through all Go value kinds realising each truth value; uniform part: every value of the truthy/falsy/undecided catalogue (all numeric widths, strings incl. \"0\" and \"false\", nil, missing, pointers, slices, maps, structs) x {v, o.v} read in v-if, v-else-if, v-show, :attr, :class object and their negations in v-if/v-else-if/v-show; non-trivial = every generated case (each has a condition decided by data); distinct by (shape, placement, form, values)"
+	return "chain part: every shape v-if + k x v-else-if (k<=2 quick, k<=3 thorough) with/without v-else x every truth assignment x 12 placements (top, nested, inside v-for with per-item conditions, on <template>, whitespace/comment between members, two adjacent chains, chain directly before a v-for sibling, inside table rows, inside an included component, inside slot content, inside a layout) x condition form (bare, negated) x a rotation through all Go value kinds realising each truth value; uniform part: every value of the truthy/falsy/undecided catalogue (all numeric widths, strings incl. \"0\" and \"false\", nil, missing, pointers, slices, maps, structs) x {v, o.v} read in v-if, v-else-if, v-show, :attr, :class object and their negations in v-if/v-else-if/v-show; non-trivial = every generated case (each has a condition decided by data); distinct by (shape, placement, form, values)"
 }
 
 func (p *c03) maxK(ctx core.Ctx) int { return ctx.Pick(2, 3) }
@@ -216,10 +216,11 @@ func (p *c03) Exec(ctx core.Ctx, cc any) core.Obs {
 	var o core.Obs
 	data := map[string]any{}
 	var tpl string
+	var files map[string]string
 	var want []string
 	tag := "p"
 	switch c.Placement {
-	case "top", "nested", "ws", "comment", "template", "beforefor", "table":
+	case "top", "nested", "ws", "comment", "template", "beforefor", "table", "memberfor", "component", "slot", "layout":
 		c03Data(c.Vals, "c", data)
 		sep := ""
 		switch c.Placement {
@@ -233,6 +234,14 @@ func (p *c03) Exec(ctx core.Ctx, cc any) core.Obs {
 		}
 		chain := c03Chain(c, "b", "c", tag, sep, c.Placement == "template")
 		exp, _ := c03Expect(c, c.Vals, "b", c.Placement == "template")
+		if c.Placement == "memberfor" {
+			// every member is also looped (two instances of the chosen branch)
+			data["two"] = []any{1, 2}
+			chain = strings.ReplaceAll(chain, ` data-m="`, ` v-for="n in two" data-m="`)
+			if len(exp) == 1 {
+				exp = []string{exp[0], exp[0]}
+			}
+		}
 		pre, post := `<p data-m="pre">a</p>T1 `, ` T2<p data-m="post">z</p>`
 		want = append([]string{"pre"}, exp...)
 		switch c.Placement {
@@ -245,6 +254,12 @@ func (p *c03) Exec(ctx core.Ctx, cc any) core.Obs {
 		}
 		want = append(want, "post")
 		switch c.Placement {
+		case "component":
+			files = map[string]string{"page.vuego": `<template include="c.vuego"></template>`, "c.vuego": `<section data-m="wrap">` + pre + chain + post + `</section>`}
+		case "slot":
+			files = map[string]string{"page.vuego": `<template include="c.vuego"><template v-slot:body>` + pre + chain + post + `</template></template>`, "c.vuego": `<section data-m="wrap"><slot name="body">fb</slot></section>`}
+		case "layout":
+			files = map[string]string{"page.vuego": "---\nlayout: lay\n---\n<p>page</p>", "layouts/lay.vuego": `<section data-m="wrap">` + pre + chain + post + `</section><div v-html="content"></div>`}
 		case "top":
 			tpl = pre + chain + post
 		case "table":
@@ -274,7 +289,14 @@ func (p *c03) Exec(ctx core.Ctx, cc any) core.Obs {
 			return o
 		}
 	}
-	out, err := renderStr(tpl, data)
+	var out string
+	var err error
+	if files != nil {
+		out, err = renderFile(memFS(files), "page.vuego", data)
+		tpl = mustJSON(files)
+	} else {
+		out, err = renderStr(tpl, data)
+	}
 	o.Evals++
 	o.NT("chain", mustJSON(c))
 	valKinds := ""
